@@ -416,6 +416,77 @@ def expand(item):
     return {"key": key, "state_probs": state_probs, "n_state_checks": nq, "succ": succ}
 
 
+def scale_work(item):
+    """beyond the BFS universes: (wide) one parent with n children, every pattern of two names over the n positions, every
+    single shift (each child x left/right x among same-named or all siblings) judged by the list model; (deep) a chain of
+    D nodes and a comb, all queries on every node"""
+    kind, payload = item
+    acc = core.Acc()
+    n_ops = 0
+    if kind == "wide":
+        n, lo, hi = payload
+        for bits in range(lo, hi):
+            names = ["p"] + [("a" if (bits >> i) & 1 else "b") for i in range(n)]
+            history = [["add", 0, i, None] for i in range(1, n + 1)]
+            config = {"names": names, "scale": "wide"}
+            for c in range(1, n + 1):
+                for d in ("L", "R"):
+                    for sib in (True, False):
+                        op = ["shift", 0, c, d, sib]
+                        try:
+                            nodes, model = replay_history(names, history)
+                        except PrefixFailed as e:
+                            acc.add_problems(e.probs)
+                            continue
+                        n_ops += 1
+                        probs = step(nodes, model, op, {"config": config, "history": history, "op": op})
+                        if not probs and c in (1, n):
+                            probs, _ = run_queries(nodes, model, {"config": config, "history": history + [op]}, 1)
+                        acc.add_problems(probs)
+    elif kind == "wide-sparse":
+        n = payload
+        for stride in (2, 3, 5, 7, n - 1):
+            names = ["p"] + [("a" if i % stride == 0 else "b") for i in range(n)]
+            history = [["add", 0, i, None] for i in range(1, n + 1)]
+            config = {"names": names, "scale": "wide-sparse"}
+            for c in range(1, n + 1):
+                for d in ("L", "R"):
+                    for sib in (True, False):
+                        op = ["shift", 0, c, d, sib]
+                        nodes, model = replay_history(names, history)
+                        n_ops += 1
+                        acc.add_problems(step(nodes, model, op, {"config": config, "history": history, "op": op}))
+    else:
+        depth = payload
+        names = [("a" if i % 3 else "b") for i in range(depth)] + ["a", "b"]
+        history = [["add", i, i + 1, None] for i in range(depth - 1)]
+        history += [["add", depth // 2, depth, 0], ["add", depth - 1, depth + 1, None]]      # a side branch and a leaf at the bottom
+        config = {"names": names, "scale": "deep"}
+        try:
+            nodes, model = replay_history(names, history)
+            n_ops += len(history)
+            probs, nq = run_queries(nodes, model, {"config": config, "history": history}, 2)
+            acc.count("scale_queries", nq)
+            acc.add_problems(probs)
+        except PrefixFailed as e:
+            acc.add_problems(e.probs)
+    acc.count("scale_edits", n_ops)
+    return acc
+
+
+def scale_items(tier):
+    items = []
+    for n in ((9, 10) if tier == "quick" else (9, 10, 11, 12)):
+        step_ = 32
+        for lo in range(0, 2 ** n, step_):
+            items.append(("wide", (n, lo, min(2 ** n, lo + step_))))
+    for n in (17, 33, 40, 70):
+        items.append(("wide-sparse", n))
+    for depth in (13, 14, 30, 64):
+        items.append(("deep", depth))
+    return items
+
+
 def replay(case):
     names = case["config"]["names"]
     try:
@@ -454,6 +525,8 @@ def explore(tier):
         per.append({"names": names, "states": info["states"], "transitions": info["transitions"],
                     "max_bfs_depth": info["max_bfs_depth"], "fixpoint": info["fixpoint"],
                     "queries": info["state_checks"]})
+    sacc = core.merge_all(core.pmap(scale_work, scale_items(tier)))
+    acc.merge(sacc)
     nontrivial = sum(v for k, v in acc.outcomes.items() if not k.endswith("!") and ":" not in k)
     cov = {
         "states": tot["states"],
@@ -469,6 +542,10 @@ def explore(tier):
                 "in every distinct state, and around every transition (queries with paths up to warm_maxlen, the edit, the same "
                 "queries again on the same objects). distinct_nontrivial = distinct canonical forests reached.",
         "universes": per,
+        "beyond_the_universes": "one parent with 9-10 (thorough: 9-12) children: every two-name pattern x every single shift; 17/33/40/70 "
+                                "children with the same name at every 2nd/3rd/5th/7th position; chains of 13/14/30/64 nodes with "
+                                "a side branch: all queries on every node",
+        "scale_edits": acc.counts.get("scale_edits", 0), "scale_queries": acc.counts.get("scale_queries", 0),
         "successful_edit_transitions": nontrivial,
     }
     return acc, cov
